@@ -40,7 +40,9 @@ type cloudModel struct {
 	byID  map[cloud.InstanceID]*simInst
 }
 
-func newCloudModel(s *sim) *cloudModel { return &cloudModel{s: s, byID: map[cloud.InstanceID]*simInst{}} }
+func newCloudModel(s *sim) *cloudModel {
+	return &cloudModel{s: s, byID: map[cloud.InstanceID]*simInst{}}
+}
 
 func copyTags(t cloud.InstanceTags) cloud.InstanceTags {
 	r := cloud.InstanceTags{}
@@ -196,12 +198,12 @@ type simInstance struct {
 	tags cloud.InstanceTags
 }
 
-func (i *simInstance) ID() cloud.InstanceID                          { return i.in.id }
-func (i *simInstance) String() string                                { return string(i.in.id) }
-func (i *simInstance) ProviderType() string                          { return i.in.ptype }
-func (i *simInstance) Tags() cloud.InstanceTags                      { return copyTags(i.tags) }
-func (i *simInstance) Address() string                               { return fmt.Sprintf("10.0.0.%d", i.in.n) }
-func (i *simInstance) RemoteUser() string                            { return "root" }
+func (i *simInstance) ID() cloud.InstanceID                           { return i.in.id }
+func (i *simInstance) String() string                                 { return string(i.in.id) }
+func (i *simInstance) ProviderType() string                           { return i.in.ptype }
+func (i *simInstance) Tags() cloud.InstanceTags                       { return copyTags(i.tags) }
+func (i *simInstance) Address() string                                { return fmt.Sprintf("10.0.0.%d", i.in.n) }
+func (i *simInstance) RemoteUser() string                             { return "root" }
 func (i *simInstance) VerifyHostKey(ssh.PublicKey, *ssh.Client) error { return nil }
 
 func (i *simInstance) SetTags(tags cloud.InstanceTags) error {
